@@ -416,6 +416,11 @@ def to_python(f, v, env=None):
         if isinstance(v, str):
             return True, v
         if isinstance(v, dict):
+            if "salt" not in v or "digest" not in v:
+                return False, None  # half of a salt / digest pair
+            for part in (v["salt"], v["digest"]):
+                if isinstance(part, str) and re.match(r"^[A-Za-z0-9+/]*\Z", part) and len(part) % 4 == 1:
+                    return False, None  # no base64 text has 4n+1 characters
             return UNKNOWN, None  # literal digests are compared structurally by the callers
         return False, None
     if fam == "secure":
